@@ -19,7 +19,7 @@ def groups(lines):
 
 def mon_script(script, out_lines, mon_engine):
     gs, trailing = groups([l for l in out_lines if not l.startswith("OBS ")])
-    ops = [l for l in script.lines if not l.startswith("GHOST ")]
+    ops = [l for l in script.lines if not l.startswith(("GHOST ", "GHOST+ "))]
     if len(gs) == len(ops) + 1:
         ops.append("END")          # the group produced by tearing the objects down
     if len(gs) != len(ops) or trailing:
